@@ -133,7 +133,8 @@ def r1a(c, reg):
                             and x.func.id not in dir(__builtins__) and not any(x.func.id == st.name for st in ast.walk(f) if isinstance(st, ast.FunctionDef)):
                         dynamic = True
                 if dynamic:
-                    ok = (modname, q) in table
+                    from sa.util import inlined_into
+                    ok = (modname, q) in table or inlined_into(repo, mm, q, table)
                     if ok:
                         c.holds("C20.R1a", repo.loc(mm, x), f"{q}/dynamic-call", f"`{norm(x.func)}` — escape point in the confirmed table")
                     else:
